@@ -188,4 +188,54 @@ example : EvalsBody {} 0 ([.prim (.int 1) none] ++ [.call (.prim (.int 2) none) 
     (.ok (.tailCall (.prim (.int 2) none) [] 0)) {} :=
   tail_body_last_judgement (.cons (Evals.prim rfl) .nil) EvalsTail.call
 
+/-! ## 6. loops written with tail calls run at constant depth -/
+
+/-- the store after `(define (loop n acc) (if (= n 0) acc (loop (- n 1) (+ acc 1))))` in a root frame
+that binds `=`, `-`, `+` to the native procedures -/
+def countStore : Store :=
+  { frames := #[{ parent := none, defs := [("=", .builtin .numEq), ("-", .builtin .sub), ("+", .builtin .add),
+      ("loop", .closure countLam 0)] }] }
+
+theorem countStore_env : CountEnv countStore 0 :=
+  ⟨⟨by decide, rfl⟩, ⟨by decide, rfl⟩, ⟨by decide, rfl⟩, ⟨by decide, rfl⟩⟩
+
+/-- MAIN. The self-recursive counting loop
+`(define (loop n acc) (if (= n 0) acc (loop (- n 1) (+ acc 1))))`, in ANY store whose frame `g` sees
+`=`, `-`, `+` and `loop` (`CountEnv`), applied to `N` and `0` for EVERY `N` an `i32` can hold:
+the activation completes with the value `N` — the result of the `N`-fold iteration of `(+ acc 1)` from
+`0` — gives `depth` back, and `maxDepth` is `max σ.maxDepth (σ.depth + 2)`: the activation itself and
+one level for the native calls `=`, `-`, `+` in operand position. The bound does not depend on `N`. -/
+theorem loop_depth_bounded {σ : Store} {g : Nat} (env : Nat) (henv : CountEnv σ g) (N : Nat) (hN : N ≤ 2147483647) :
+    ∃ σ', AppliesProc σ (.closure countLam g) [.num (.int N), .num (.int 0)] env
+        (.ok (.num (.int (Nat.repeat (fun a : Int => a + 1) N 0)))) σ' ∧
+      Nat.repeat (fun a : Int => a + 1) N 0 = N ∧
+      σ'.depth = σ.depth ∧ σ'.maxDepth = max σ.maxDepth (σ.depth + 2) := by
+  have henv' : CountEnv (enter σ) g :=
+    ⟨henv.eq.of_frames_eq rfl, henv.sub.of_frames_eq rfl, henv.add.of_frames_eq rfl, henv.loop.of_frames_eq rfl⟩
+  obtain ⟨σ₁, hl, hm⟩ := count_loop g env N 0 (enter σ) henv' (by omega) (by omega) (by omega)
+  have hit : Nat.repeat (fun a : Int => a + 1) N 0 = N := by rw [repeat_succ_eq]; omega
+  refine ⟨leave σ₁, ?_, hit, ?_, ?_⟩
+  · rw [hit]
+    have := AppliesProc.of_loop hl
+    simpa using this
+  · show σ₁.depth - 1 = σ.depth
+    rw [hl.depthOk.1]; rfl
+  · show σ₁.maxDepth = _
+    rw [hm]
+    show max (max σ.maxDepth (σ.depth + 1)) (σ.depth + 1 + 1) = _
+    omega
+
+/-- the same from the concrete top-level store, with the numbers: depth 0 before and after, `maxDepth`
+2, for a million iterations as for one -/
+theorem loop_depth_bounded_concrete (N : Nat) (hN : N ≤ 2147483647) :
+    ∃ σ', AppliesProc countStore (.closure countLam 0) [.num (.int N), .num (.int 0)] 0 (.ok (.num (.int N))) σ' ∧
+      σ'.depth = 0 ∧ σ'.maxDepth = 2 := by
+  obtain ⟨σ', h, hit, hd, hm⟩ := loop_depth_bounded 0 countStore_env N hN
+  rw [hit] at h
+  exact ⟨σ', h, hd, hm⟩
+
+example : ∃ σ', AppliesProc countStore (.closure countLam 0) [.num (.int 1000000), .num (.int 0)] 0
+    (.ok (.num (.int 1000000))) σ' ∧ σ'.depth = 0 ∧ σ'.maxDepth = 2 :=
+  loop_depth_bounded_concrete 1000000 (by decide)
+
 end Ruschm.C02
